@@ -39,16 +39,28 @@ theorem upsertAccounts_rows_now (now now' : Time) (schema : Option Schema) (tx :
   simp only [List.foldl_map]
   congr 1
 
+theorem updateVolumes_fold (ups v : PCV) : (updateVolumes ups v).2 = ups.foldl addVolumes v := rfl
+
+theorem updateVolumes_pcv_eq (ups v1 v2 : PCV) (h : VolRel v1 v2) : (updateVolumes ups v1).1 = (updateVolumes ups v2).1 := by
+  unfold updateVolumes
+  simp only
+  apply List.map_congr_left
+  intro e _
+  rw [(h.fold_add ups).volOf]
+
 /-- `CommitTransaction` replayed with the explicit id and dates of the live row, on
-    tables with the same transactions and the same `UpdateVolumes` result. -/
+    tables with the same transactions and the same volumes up to zero rows. -/
 theorem commit_replay (now now' : Time) (t : TxIn) (ht : t.id = none) (hti : t.insertedAt = none)
-    (htu : t.updatedAt = none) (dm d1 : Db) (sq sq' sqR : Seqs) (row : Tx) (dm' : Db)
-    (htx : dm.txs = d1.txs)
-    (hv : updateVolumes (volumeUpdates t.postings) dm.volumes = updateVolumes (volumeUpdates t.postings) d1.volumes)
+    (htu : t.updatedAt = none) (dm dR : Db) (sq sq' sqR : Seqs) (row : Tx) (dm' : Db)
+    (htx : dm.txs = dR.txs) (hv : VolRel dm.volumes dR.volumes)
     (h : commitTransaction now t dm sq = (sq', .ok (row, dm'))) :
-    commitTransaction now' (txIn row) d1 sqR = (sqR, .ok (row, { d1 with volumes := dm'.volumes, txs := dm'.txs })) ∧
-    dm'.volumes = (updateVolumes (volumeUpdates t.postings) dm.volumes).2 ∧ row.postings = t.postings ∧
+    commitTransaction now' (txIn row) dR sqR =
+      (sqR, .ok (row, { dR with volumes := (volumeUpdates t.postings).foldl addVolumes dR.volumes,
+                                txs := dR.txs ++ [row] })) ∧
+    VolRel dm'.volumes ((volumeUpdates t.postings).foldl addVolumes dR.volumes) ∧
     dm'.txs = dm.txs ++ [row] ∧ dm'.accounts = dm.accounts ∧ dm'.schemas = dm.schemas ∧ dm'.logs = dm.logs := by
+  have hpcv := updateVolumes_pcv_eq (volumeUpdates t.postings) _ _ hv
+  have hrel := hv.fold_add (volumeUpdates t.postings)
   unfold commitTransaction at h ⊢
   simp only [ht, hti, htu] at h
   split at h
@@ -58,12 +70,111 @@ theorem commit_replay (now now' : Time) (t : TxIn) (ht : t.id = none) (hti : t.i
     · rename_i h1 h2
       simp only [Prod.mk.injEq, Except.ok.injEq] at h
       obtain ⟨_, rfl, rfl⟩ := h
-      simp only [txIn, ← htx, ← hv]
+      simp only [txIn, ← htx, ← hpcv]
       split
       · rename_i h1'; exact absurd h1' h1
       · split
         · rename_i h2'; exact absurd h2' h2
-        · refine ⟨?_, ?_, ?_, ?_, ?_, ?_, ?_⟩ <;> first | rfl | trivial
+        · refine ⟨?_, hrel, ?_, ?_, ?_, ?_⟩ <;> first | rfl | trivial
+
+/-! ### calls that neither read nor write `accounts_volumes` -/
+
+def Db.withVol (d : Db) (v : PCV) : Db := { d with volumes := v }
+
+def Call.NoVol : Call → Prop
+  | .commitTransaction _ => False
+  | .getBalances _ => False
+  | _ => True
+
+theorem exec_frame (now : Time) (c : Call) (hc : c.NoVol) (d : Db) (v : PCV) (sq : Seqs) :
+    exec now c (d.withVol v) sq =
+      match exec now c d sq with
+      | (sq', .ok (r, d')) => (sq', .ok (r, d'.withVol v))
+      | (sq', .error e) => (sq', .error e) := by
+  cases c with
+  | commitTransaction t => exact hc.elim
+  | getBalances q => exact hc.elim
+  | readLogIK ik => rfl
+  | findSchema x => rfl
+  | findLatestSchemaVersion => rfl
+  | getAccount a => rfl
+  | upsertAccounts rows => rfl
+  | updateAccountsMeta m w => rfl
+  | revertTransaction id w =>
+    simp only [exec, revertTransaction]
+    show (sq, match d.findTx id with | none => _ | some t => _) = _
+    cases d.findTx id with
+    | none => rfl
+    | some t => dsimp only; cases t.revertedAt <;> rfl
+  | updateTxMeta id m w =>
+    simp only [exec, updateTxMeta]
+    show (sq, match d.findTx id with | none => _ | some t => _) = _
+    cases d.findTx id <;> rfl
+  | deleteTxMeta id k w =>
+    simp only [exec, deleteTxMeta]
+    show (sq, match d.findTx id with | none => _ | some t => _) = _
+    cases d.findTx id <;> rfl
+  | deleteAccountMeta a k =>
+    simp only [exec, deleteAccountMeta]
+    show (sq, Except.ok ((), match d.accounts.get? a with | some x => _ | none => _)) = _
+    cases d.accounts.get? a <;> rfl
+  | insertSchema s =>
+    simp only [exec, insertSchema]
+    show (sq, Except.ok (if (d.schemas.any fun x => decide (x.version = s.version)) = true then _ else _)) = _
+    split <;> rfl
+  | insertLog l =>
+    simp only [exec, insertLog]
+    rw [show (d.withVol v).logs = d.logs from rfl]
+    cases l.id with
+    | none =>
+      dsimp only
+      by_cases h1 : (d.logs.any fun x => decide (x.id = sq.log + 1)) = true
+      · simp only [if_pos h1]
+      · by_cases h2 : l.ik ≠ "" ∧ (d.logs.any fun x => decide (x.ik = l.ik)) = true
+        · simp only [if_neg h1, if_pos h2]
+        · simp only [if_neg h1, if_neg h2]; rfl
+    | some i =>
+      dsimp only
+      by_cases h1 : (d.logs.any fun x => decide (x.id = i)) = true
+      · simp only [if_pos h1]
+      · by_cases h2 : l.ik ≠ "" ∧ (d.logs.any fun x => decide (x.ik = l.ik)) = true
+        · simp only [if_neg h1, if_pos h2]
+        · simp only [if_neg h1, if_neg h2]; rfl
+
+theorem eval_frame {α : Type} (now : Time) (p : Prog α) (hp : p.All Call.NoVol) (d : Db) (v : PCV) (sq : Seqs) :
+    eval now p (d.withVol v) sq = (eval now p d sq).map fun x => (x.1, x.2.1.withVol v, x.2.2) := by
+  induction hp generalizing d sq with
+  | pure a => rfl
+  | fail e => rfl
+  | call c k hc _ ih =>
+    simp only [eval, exec_frame now c hc d v sq]
+    cases hex : exec now c d sq with
+    | mk sq' res =>
+      cases res with
+      | error e => rfl
+      | ok x => exact ih x.1 x.2 sq'
+
+/-- `importLog` of a log that is neither a new nor a reverted transaction does not
+    touch `accounts_volumes`. -/
+theorem importLog_noVol (l : Log) (h : match l.payload with | .created .. => False | .reverted .. => False | _ => True) :
+    (importLog l).All Call.NoVol := by
+  unfold importLog
+  cases hp : l.payload with
+  | created tx am => rw [hp] at h; exact h.elim
+  | reverted a b => rw [hp] at h; exact h.elim
+  | insertedSchema s =>
+    refine .call _ _ trivial (fun r => ?_)
+    cases r with
+    | none => exact .fail _
+    | some _ => exact .call _ _ trivial (fun _ => .pure _)
+  | savedMeta t m =>
+    cases t with
+    | account a => exact .call _ _ trivial (fun _ => .call _ _ trivial (fun _ => .pure _))
+    | transaction id => exact .call _ _ trivial (fun _ => .call _ _ trivial (fun _ => .pure _))
+  | deletedMeta t k =>
+    cases t with
+    | account a => exact .call _ _ trivial (fun _ => .call _ _ trivial (fun _ => .pure _))
+    | transaction id => exact .call _ _ trivial (fun _ => .call _ _ trivial (fun _ => .pure _))
 
 /-- The imported log's own insertion, as every per-kind lemma needs it. -/
 def InsertsAs (now' : Time) (L : Log) (d2 : Db) (sqR : Seqs) : Prop :=
@@ -76,24 +187,26 @@ theorem replay_saveTxMeta (now now' : Time) (strict : Bool) (n : Nat) (id : Nat)
     (h : eval now (body strict (.saveTxMeta id m) n schema) d1 sq1 = some (p, d2, sq2))
     (hins : InsertsAs now' (mkLog lid p now ik ihash sv) d2 sqR) :
     eval now' (importLog (mkLog lid p now ik ihash sv)) d1 sqR =
-      some ((), { d2 with logs := d2.logs ++ [mkLog lid p now ik ihash sv] }, sqR) ∧ d2.volumes = d1.volumes := by
+      some ((), { d2 with logs := d2.logs ++ [mkLog lid p now ik ihash sv] }, sqR) ∧ d2.volumes = d1.volumes ∧
+    (importLog (mkLog lid p now ik ihash sv)).All Call.NoVol := by
   simp only [body, eval, exec, updateTxMeta] at h
   cases hf : d1.findTx id with
   | none => simp only [hf, eval] at h; cases h
   | some t =>
     simp only [hf, eval, Option.some.injEq, Prod.mk.injEq] at h
     obtain ⟨rfl, rfl, _⟩ := h
+    refine ⟨?_, rfl, importLog_noVol _ trivial⟩
     unfold InsertsAs at hins
     simp only [mkLog] at hins
     simp only [importLog, mkLog, eval, exec, updateTxMeta, hf, hins]
-    refine ⟨?_, ?_⟩ <;> first | rfl | trivial
 
 theorem replay_delTxMeta (now now' : Time) (strict : Bool) (n : Nat) (id : Nat) (key : String) (schema : Option Schema)
     (d1 d2 : Db) (sq1 sq2 sqR : Seqs) (p : Payload) (lid : Nat) (ik ihash sv : String)
     (h : eval now (body strict (.delTxMeta id key) n schema) d1 sq1 = some (p, d2, sq2))
     (hins : InsertsAs now' (mkLog lid p now ik ihash sv) d2 sqR) :
     eval now' (importLog (mkLog lid p now ik ihash sv)) d1 sqR =
-      some ((), { d2 with logs := d2.logs ++ [mkLog lid p now ik ihash sv] }, sqR) ∧ d2.volumes = d1.volumes := by
+      some ((), { d2 with logs := d2.logs ++ [mkLog lid p now ik ihash sv] }, sqR) ∧ d2.volumes = d1.volumes ∧
+    (importLog (mkLog lid p now ik ihash sv)).All Call.NoVol := by
   simp only [body, eval, exec, deleteTxMeta] at h
   cases hf : d1.findTx id with
   | none => simp only [hf, eval] at h; cases h
@@ -102,10 +215,10 @@ theorem replay_delTxMeta (now now' : Time) (strict : Bool) (n : Nat) (id : Nat) 
     by_cases hc : t.metadata.contains key = true
     · simp only [hc, ↓reduceIte, eval, Option.some.injEq, Prod.mk.injEq] at h
       obtain ⟨rfl, rfl, _⟩ := h
+      refine ⟨?_, rfl, importLog_noVol _ trivial⟩
       unfold InsertsAs at hins
       simp only [mkLog] at hins
       simp only [importLog, mkLog, eval, exec, deleteTxMeta, hf, hins]
-      refine ⟨?_, ?_⟩ <;> first | rfl | trivial
     · simp only [hc, Bool.false_eq_true, ↓reduceIte, eval] at h; cases h
 
 theorem replay_insertSchema (now now' : Time) (strict : Bool) (n : Nat) (version : String)
@@ -114,7 +227,8 @@ theorem replay_insertSchema (now now' : Time) (strict : Bool) (n : Nat) (version
     (h : eval now (body strict (.insertSchema version chart tpls bad) n schema) d1 sq1 = some (p, d2, sq2))
     (hins : InsertsAs now' (mkLog lid p now ik ihash sv) d2 sqR) :
     eval now' (importLog (mkLog lid p now ik ihash sv)) d1 sqR =
-      some ((), { d2 with logs := d2.logs ++ [mkLog lid p now ik ihash sv] }, sqR) ∧ d2.volumes = d1.volumes := by
+      some ((), { d2 with logs := d2.logs ++ [mkLog lid p now ik ihash sv] }, sqR) ∧ d2.volumes = d1.volumes ∧
+    (importLog (mkLog lid p now ik ihash sv)).All Call.NoVol := by
   simp only [body] at h
   cases chart with
   | none => simp only [eval] at h; cases h
@@ -129,10 +243,10 @@ theorem replay_insertSchema (now now' : Time) (strict : Bool) (n : Nat) (version
       · simp only [hdup, ↓reduceIte, eval] at h; cases h
       · simp only [hdup, Bool.false_eq_true, ↓reduceIte, eval, Option.some.injEq, Prod.mk.injEq] at h
         obtain ⟨rfl, rfl, _⟩ := h
+        refine ⟨?_, rfl, importLog_noVol _ trivial⟩
         unfold InsertsAs at hins
         simp only [mkLog] at hins
         simp only [importLog, mkLog, eval, exec, insertSchema, hdup, Bool.false_eq_true, ↓reduceIte, hins]
-        refine ⟨?_, ?_⟩ <;> first | rfl | trivial
 
 /-- Account `SET_METADATA`: live `UpsertAccounts` (NULL dates, chart defaults) against the
     replay's `UpdateAccountsMetadata(…, log date)`, under the two safety conditions. -/
@@ -158,11 +272,13 @@ theorem replay_saveAccMeta (now now' : Time) (strict : Bool) (n : Nat) (a : Stri
     (d1 d2 : Db) (sq1 sq2 sqR : Seqs) (p : Payload) (lid : Nat) (ik ihash sv : String)
     (h : eval now (body strict (.saveAccMeta a m) n (if sv ≠ "" then findSchema sv d1 else none)) d1 sq1 = some (p, d2, sq2))
     (hins : InsertsAs now' (mkLog lid p now ik ihash sv) d2 sqR)
-    (hsafe : logSafe d1 { d2 with logs := d2.logs ++ [mkLog lid p now ik ihash sv] } (mkLog lid p now ik ihash sv) = true) :
+    (hsafe : logSafe d1 (mkLog lid p now ik ihash sv) = true) :
     eval now' (importLog (mkLog lid p now ik ihash sv)) d1 sqR =
-      some ((), { d2 with logs := d2.logs ++ [mkLog lid p now ik ihash sv] }, sqR) ∧ d2.volumes = d1.volumes := by
+      some ((), { d2 with logs := d2.logs ++ [mkLog lid p now ik ihash sv] }, sqR) ∧ d2.volumes = d1.volumes ∧
+    (importLog (mkLog lid p now ik ihash sv)).All Call.NoVol := by
   simp only [body, saveAccMetaBody, eval, exec, Option.some.injEq, Prod.mk.injEq] at h
   obtain ⟨rfl, rfl, _⟩ := h
+  refine ⟨?_, rfl, importLog_noVol _ trivial⟩
   unfold InsertsAs at hins
   simp only [mkLog] at hins
   have hp : updateAccountsMeta now' [(a, m)] (some now) d1 = upsertAccounts now
@@ -176,15 +292,15 @@ theorem replay_saveAccMeta (now now' : Time) (strict : Bool) (n : Nat) (a : Stri
       exact hsafe.imp id of_decide_eq_false
   simp only [importLog, mkLog, eval, exec]
   rw [hp, hins]
-  refine ⟨?_, ?_⟩ <;> first | rfl | trivial
 
 theorem replay_delAccMeta (now now' : Time) (strict : Bool) (n : Nat) (a key : String) (schema : Option Schema)
     (d1 d2 : Db) (sq1 sq2 sqR : Seqs) (p : Payload) (lid : Nat) (ik ihash sv : String)
     (h : eval now (body strict (.delAccMeta a key) n schema) d1 sq1 = some (p, d2, sq2))
     (hins : InsertsAs now' (mkLog lid p now ik ihash sv) d2 sqR)
-    (hsafe : logSafe d1 { d2 with logs := d2.logs ++ [mkLog lid p now ik ihash sv] } (mkLog lid p now ik ihash sv) = true) :
+    (hsafe : logSafe d1 (mkLog lid p now ik ihash sv) = true) :
     eval now' (importLog (mkLog lid p now ik ihash sv)) d1 sqR =
-      some ((), { d2 with logs := d2.logs ++ [mkLog lid p now ik ihash sv] }, sqR) ∧ d2.volumes = d1.volumes := by
+      some ((), { d2 with logs := d2.logs ++ [mkLog lid p now ik ihash sv] }, sqR) ∧ d2.volumes = d1.volumes ∧
+    (importLog (mkLog lid p now ik ihash sv)).All Call.NoVol := by
   simp only [body, eval, exec, Option.some.injEq, Prod.mk.injEq] at h
   obtain ⟨rfl, rfl, _⟩ := h
   unfold InsertsAs at hins
@@ -192,69 +308,53 @@ theorem replay_delAccMeta (now now' : Time) (strict : Bool) (n : Nat) (a key : S
   simp only [logSafe, mkLog, Option.isNone_iff_eq_none] at hsafe
   have hp : ∀ t, deleteAccountMeta t a key d1 = d1 := by
     intro t; unfold deleteAccountMeta; simp only [hsafe]
+  refine ⟨?_, by rw [hp], importLog_noVol _ trivial⟩
   simp only [hp] at hins ⊢
   simp only [importLog, mkLog, eval, exec, hp, hins]
-  refine ⟨?_, ?_⟩ <;> first | rfl | trivial
 
 theorem Db.eq_of (d d' : Db) (h1 : d.txs = d'.txs) (h2 : d.accounts = d'.accounts) (h3 : d.volumes = d'.volumes)
     (h4 : d.logs = d'.logs) (h5 : d.schemas = d'.schemas) : d = d' := by
   cases d; cases d'; simp only at h1 h2 h3 h4 h5; subst h1 h2 h3 h4 h5; rfl
 
-theorem updateVolumes_fold (ups v : PCV) : (updateVolumes ups v).2 = ups.foldl addVolumes v := rfl
+theorem eval_call_ok {α : Type} (now : Time) (c : Call) (k : c.Ret → Prog α) (d : Db) (sq sq' : Seqs) (r : c.Ret) (d' : Db)
+    (h : exec now c d sq = (sq', .ok (r, d'))) : eval now (Prog.call c k) d sq = eval now (k r) d' sq' := by
+  simp only [eval, h]
 
-theorem updateVolumes_congr (ups v1 v2 : PCV) (h : ups.foldl addVolumes v1 = ups.foldl addVolumes v2) :
-    updateVolumes ups v1 = updateVolumes ups v2 := by
-  unfold updateVolumes
-  simp only [h]
+/-- The tail of every `importLog`: the log's own insertion, on tables with any volumes. -/
+theorem eval_insert_frame (now' : Time) (L : Log) (d2 : Db) (v : PCV) (sqR : Seqs) (hins : InsertsAs now' L d2 sqR) :
+    eval now' (Prog.call (Call.insertLog { id := some L.id, payload := L.payload, date := some L.date, ik := L.ik, ihash := L.ihash, schemaVersion := L.schemaVersion }) fun _ => Prog.pure ()) (d2.withVol v) sqR =
+      some ((), ({ d2 with logs := d2.logs ++ [L] } : Db).withVol v, sqR) := by
+  have hnv : (Prog.call (Call.insertLog { id := some L.id, payload := L.payload, date := some L.date, ik := L.ik, ihash := L.ihash, schemaVersion := L.schemaVersion }) fun _ => (Prog.pure () : Prog Unit)).All Call.NoVol :=
+    .call _ _ (by exact trivial) (fun _ => .pure _)
+  rw [eval_frame now' _ hnv d2 v sqR]
+  unfold InsertsAs at hins
+  simp only [eval, exec, hins, Option.map_some]
 
-/-- Live commit after a lock-only prefix against the replayed commit, when the live
-    result is covered. -/
-theorem commit_replay_covered (now now' : Time) (t : TxIn) (ht : t.id = none) (hti : t.insertedAt = none)
-    (htu : t.updatedAt = none) (d1 dm : Db) (sq sq' sqR : Seqs) (row : Tx) (dm' : Db)
-    (htx : dm.txs = d1.txs) (hv : VolRel dm.volumes d1.volumes)
-    (h : commitTransaction now t dm sq = (sq', .ok (row, dm')))
-    (hc : ∀ k ∈ dm'.volumes.keys, d1.volumes.contains k = true ∨ (volumeUpdates row.postings).contains k = true) :
-    commitTransaction now' (txIn row) d1 sqR = (sqR, .ok (row, { d1 with volumes := dm'.volumes, txs := dm'.txs })) ∧
-    Map.WF dm'.volumes ∧
-    dm'.txs = dm.txs ++ [row] ∧ dm'.accounts = dm.accounts ∧ dm'.schemas = dm.schemas ∧ dm'.logs = dm.logs := by
-  have hfold : (volumeUpdates t.postings).foldl addVolumes dm.volumes =
-      (volumeUpdates t.postings).foldl addVolumes d1.volumes := by
-    apply hv.covered_eq
-    intro k hk
-    have h0 := commit_replay now now' t ht hti htu dm dm sq sq' sqR row dm' rfl rfl h
-    rw [h0.2.2.1] at hc
-    apply hc
-    rw [h0.2.1, updateVolumes_fold]
-    exact hk
-  have h0 := commit_replay now now' t ht hti htu dm d1 sq sq' sqR row dm' htx
-    (updateVolumes_congr _ _ _ hfold) h
-  refine ⟨h0.1, ?_, h0.2.2.2⟩
-  rw [h0.2.1, updateVolumes_fold]
-  exact (hv.fold_add _).wf1
-
-theorem covered_of_safe (d d' : Db) (ps : List Posting) (h : volumesCovered d d' ps = true) :
-    ∀ k ∈ d'.volumes.keys, d.volumes.contains k = true ∨ (volumeUpdates ps).contains k = true := by
-  intro k hk
-  unfold volumesCovered at h
-  have := List.all_eq_true.mp h k hk
-  simpa only [Bool.or_eq_true] using this
+theorem eval_upsert_insert_tail (now now' : Time) (schema : Option Schema) (row : Tx) (am : Map String Meta) (li : LogIn)
+    (dc : Db) (v : PCV) (sqR : Seqs) :
+    eval now' (Prog.call (Call.upsertAccounts (accountRows schema row am)) fun _ =>
+        Prog.call (Call.insertLog li) fun _ => Prog.pure ()) (dc.withVol v) sqR =
+      eval now' (Prog.call (Call.insertLog li) fun _ => Prog.pure ())
+        ((upsertAccounts now (accountRows schema row am) dc).withVol v) sqR := by
+  rw [eval_call_ok now' _ _ _ sqR sqR () _ rfl, upsertAccounts_rows_now now' now]
+  rfl
 
 theorem replay_create (now now' : Time) (strict : Bool) (sv : String) (c : CreateIn)
     (machine : Prog MachineResult) (hm : machine.All Call.LockOnly) (d1 d2 : Db) (sq1 sq2 sqR : Seqs) (p : Payload)
-    (lid : Nat) (ik ihash : String) (hw : Map.WF d1.volumes)
+    (lid : Nat) (ik ihash : String) (vR : PCV) (hv : VolRel d1.volumes vR)
     (hfound : sv ≠ "" → (findSchema sv d1).isSome = true)
     (h : eval now (createBody strict (if sv ≠ "" then findSchema sv d1 else none) c machine) d1 sq1 = some (p, d2, sq2))
-    (hins : InsertsAs now' (mkLog lid p now ik ihash sv) d2 sqR)
-    (hsafe : logSafe d1 { d2 with logs := d2.logs ++ [mkLog lid p now ik ihash sv] } (mkLog lid p now ik ihash sv) = true) :
-    eval now' (importLog (mkLog lid p now ik ihash sv)) d1 sqR =
-      some ((), { d2 with logs := d2.logs ++ [mkLog lid p now ik ihash sv] }, sqR) ∧ Map.WF d2.volumes := by
+    (hins : InsertsAs now' (mkLog lid p now ik ihash sv) d2 sqR) :
+    ∃ vR', eval now' (importLog (mkLog lid p now ik ihash sv)) (d1.withVol vR) sqR =
+      some ((), ({ d2 with logs := d2.logs ++ [mkLog lid p now ik ihash sv] } : Db).withVol vR', sqR) ∧
+      VolRel d2.volumes vR' := by
   unfold createBody at h
   by_cases htr : templateRefused strict (if sv ≠ "" then findSchema sv d1 else none) c.template = true
   · rw [if_pos htr] at h; simp only [eval] at h; cases h
   · rw [if_neg htr] at h
     obtain ⟨r, dm, sqm, hmach, h⟩ := eval_bind_some now _ _ _ _ _ h
     obtain ⟨hms, hma, hmt, hml⟩ := eval_lockOnly now machine hm d1 sq1 _ hmach
-    have hvr := eval_lockOnly_vol now machine hm d1 sq1 d1.volumes (VolRel.refl hw) _ hmach
+    have hvr := eval_lockOnly_vol now machine hm d1 sq1 vR hv _ hmach
     simp only at hms hma hmt hml hvr
     by_cases hp : r.postings = []
     · rw [if_pos hp] at h; simp only [eval] at h; cases h
@@ -266,22 +366,31 @@ theorem replay_create (now now' : Time) (strict : Bool) (sv : String) (c : Creat
         simp only [eval, exec, Option.some.injEq, Prod.mk.injEq] at h
         obtain ⟨rfl, rfl, _⟩ := h
         simp only [exec] at hexc
-        have hcov := covered_of_safe _ _ _ (by simpa only [logSafe, mkLog] using hsafe)
-        obtain ⟨hcm, hwf, htxs, hacc, hsch, hlogs⟩ := commit_replay_covered now now' _ rfl rfl rfl d1 dm sqm sqc sqR row dc
-          hmt hvr hexc hcov
-        have hdc : ({ d1 with volumes := dc.volumes, txs := dc.txs } : Db) = dc :=
-          Db.eq_of _ _ rfl (by rw [hacc, hma]) rfl (by rw [hlogs, hml]) (by rw [hsch, hms])
-        refine ⟨?_, hwf⟩
-        unfold InsertsAs at hins
-        simp only [mkLog] at hins
+        obtain ⟨hcm, hrel, htxs, hacc, hsch, hlogs⟩ := commit_replay now now' _ rfl rfl rfl dm (d1.withVol vR)
+          sqm sqc sqR row dc hmt hvr hexc
+        refine ⟨_, ?_, hrel⟩
+        have hdc : ({ d1.withVol vR with
+              volumes := (volumeUpdates r.postings).foldl addVolumes (d1.withVol vR).volumes,
+              txs := (d1.withVol vR).txs ++ [row] } : Db) =
+            dc.withVol ((volumeUpdates r.postings).foldl addVolumes (d1.withVol vR).volumes) :=
+          Db.eq_of _ _ (by show d1.txs ++ [row] = dc.txs; rw [htxs, hmt]) (by show d1.accounts = dc.accounts; rw [hacc, hma]) rfl
+            (by show d1.logs = dc.logs; rw [hlogs, hml]) (by show d1.schemas = dc.schemas; rw [hsch, hms])
+        rw [hdc] at hcm
         simp only [importLog, mkLog]
         by_cases hsv : sv = ""
         · subst hsv
-          simp only [ne_eq, not_true_eq_false, ↓reduceIte, eval, exec, hcm, hdc] at hins ⊢
-          rw [upsertAccounts_rows_now now' now, hins]
+          simp only [ne_eq, not_true_eq_false, ↓reduceIte] at hins ⊢
+          rw [eval_call_ok now' (Call.commitTransaction (txIn row)) _ _ sqR sqR (row : Tx) _ hcm, eval_upsert_insert_tail now now']
+          exact eval_insert_frame now' _ _ _ sqR hins
         · obtain ⟨sc, hsc⟩ := Option.isSome_iff_exists.mp (hfound hsv)
-          simp only [ne_eq, hsv, not_false_eq_true, ↓reduceIte, eval, exec, hsc, hcm, hdc] at hins ⊢
-          rw [upsertAccounts_rows_now now' now, hins]
+          simp only [ne_eq, hsv, not_false_eq_true, ↓reduceIte, hsc] at hins ⊢
+          have hfs : exec now' (Call.findSchema sv) (d1.withVol vR) sqR = (sqR, .ok (some sc, d1.withVol vR)) := by
+            show (sqR, Except.ok (findSchema sv d1, d1.withVol vR)) = _
+            rw [hsc]
+          rw [eval_call_ok now' _ _ _ sqR sqR _ _ hfs]
+          simp only
+          rw [eval_call_ok now' (Call.commitTransaction (txIn row)) _ _ sqR sqR (row : Tx) _ hcm, eval_upsert_insert_tail now now']
+          exact eval_insert_frame now' _ _ _ sqR hins
 
 theorem findTx_id (d : Db) (id : Nat) (t : Tx) (h : d.findTx id = some t) : t.id = id := by
   unfold Db.findTx at h
@@ -290,12 +399,12 @@ theorem findTx_id (d : Db) (id : Nat) (t : Tx) (h : d.findTx id = some t) : t.id
 
 theorem replay_revert (now now' : Time) (strict : Bool) (n : Nat) (id : Nat) (force aed : Bool) (m : Meta)
     (schema : Option Schema) (d1 d2 : Db) (sq1 sq2 sqR : Seqs) (p : Payload) (lid : Nat) (ik ihash sv : String)
-    (hw : Map.WF d1.volumes)
+    (vR : PCV) (hv : VolRel d1.volumes vR)
     (h : eval now (body strict (.revert id force aed m) n schema) d1 sq1 = some (p, d2, sq2))
-    (hins : InsertsAs now' (mkLog lid p now ik ihash sv) d2 sqR)
-    (hsafe : logSafe d1 { d2 with logs := d2.logs ++ [mkLog lid p now ik ihash sv] } (mkLog lid p now ik ihash sv) = true) :
-    eval now' (importLog (mkLog lid p now ik ihash sv)) d1 sqR =
-      some ((), { d2 with logs := d2.logs ++ [mkLog lid p now ik ihash sv] }, sqR) ∧ Map.WF d2.volumes := by
+    (hins : InsertsAs now' (mkLog lid p now ik ihash sv) d2 sqR) :
+    ∃ vR', eval now' (importLog (mkLog lid p now ik ihash sv)) (d1.withVol vR) sqR =
+      some ((), ({ d2 with logs := d2.logs ++ [mkLog lid p now ik ihash sv] } : Db).withVol vR', sqR) ∧
+      VolRel d2.volumes vR' := by
   simp only [body, revertBody] at h
   obtain ⟨sqa, r, da, hex, h⟩ := eval_call_some now _ _ d1 sq1 _ h
   simp only [exec, revertTransaction, Prod.mk.injEq] at hex
@@ -325,51 +434,64 @@ theorem replay_revert (now now' : Time) (strict : Bool) (n : Nat) (id : Nat) (fo
         simp only [eval, Option.some.injEq, Prod.mk.injEq] at h
         obtain ⟨rfl, rfl, _⟩ := h
         simp only [exec] at hexc
-        have hcov := covered_of_safe _ _ _ (by simpa only [logSafe, mkLog] using hsafe)
-        obtain ⟨hcm, hwf, htxs, hacc, hsch, hlogs⟩ := commit_replay_covered now now' _ rfl rfl rfl
-          (d1.modifyTx t.id fun x => { x with revertedAt := some now, updatedAt := now }) _ sqb sqc sqR row dc
-          (by rfl) (by exact (VolRel.refl hw).fold_lock _) hexc hcov
-        have hdc : ({ (d1.modifyTx t.id fun x => { x with revertedAt := some now, updatedAt := now }) with
-              volumes := dc.volumes, txs := dc.txs } : Db) = dc :=
-          Db.eq_of _ _ rfl (by rw [hacc]) rfl (by rw [hlogs]) (by rw [hsch])
-        refine ⟨?_, hwf⟩
-        unfold InsertsAs at hins
-        simp only [mkLog] at hins
-        simp only [importLog, mkLog, eval, exec, revertTransaction, hf, hr, hcm, hdc]
-        rw [hins]
+        obtain ⟨hcm, hrel, htxs, hacc, hsch, hlogs⟩ := commit_replay now now' _ rfl rfl rfl _
+          ((d1.withVol vR).modifyTx t.id fun x => { x with revertedAt := some now, updatedAt := now })
+          sqb sqc sqR row dc (by rfl) (by exact hv.fold_lock _) hexc
+        refine ⟨_, ?_, hrel⟩
+        have hdc : ({ ((d1.withVol vR).modifyTx t.id fun x => { x with revertedAt := some now, updatedAt := now }) with
+              volumes := (volumeUpdates (reversePostings t.postings)).foldl addVolumes vR,
+              txs := ((d1.withVol vR).modifyTx t.id fun x => { x with revertedAt := some now, updatedAt := now }).txs ++ [row] } : Db) =
+            dc.withVol ((volumeUpdates (reversePostings t.postings)).foldl addVolumes vR) :=
+          Db.eq_of _ _ (htxs ▸ rfl) (hacc ▸ rfl) rfl (hlogs ▸ rfl) (hsch ▸ rfl)
+        have hcm' : commitTransaction now' (txIn row)
+            ((d1.withVol vR).modifyTx t.id fun x => { x with revertedAt := some now, updatedAt := now }) sqR =
+            (sqR, .ok (row, dc.withVol ((volumeUpdates (reversePostings t.postings)).foldl addVolumes vR))) := by
+          rw [← hdc]; exact hcm
+        have hrv : exec now' (Call.revertTransaction t.id (some now)) (d1.withVol vR) sqR =
+            (sqR, .ok (({ t with revertedAt := some now, updatedAt := now }, true),
+              (d1.withVol vR).modifyTx t.id fun x => { x with revertedAt := some now, updatedAt := now })) := by
+          have hf' : (d1.withVol vR).findTx t.id = some t := hf
+          simp only [exec, revertTransaction, hf', hr]
+        simp only [importLog, mkLog]
+        rw [eval_call_ok now' _ _ _ sqR sqR _ _ hrv,
+          eval_call_ok now' (Call.commitTransaction (txIn row)) _ _ sqR sqR (row : Tx) _ hcm']
+        exact eval_insert_frame now' _ _ _ sqR hins
 
-/-- Every operation's function, replayed. -/
+/-- Every operation's function, replayed on tables whose volumes are the live ones
+    up to zero rows. -/
 theorem replay_body (now now' : Time) (strict : Bool) (kind : OpKind) (n : Nat) (sv : String) (d1 d2 : Db)
-    (sq1 sq2 sqR : Seqs) (p : Payload) (lid : Nat) (ik ihash : String) (hw : Map.WF d1.volumes)
+    (sq1 sq2 sqR : Seqs) (p : Payload) (lid : Nat) (ik ihash : String) (vR : PCV) (hv : VolRel d1.volumes vR)
     (hfound : sv ≠ "" → (findSchema sv d1).isSome = true)
     (h : eval now (body strict kind n (if sv ≠ "" then findSchema sv d1 else none)) d1 sq1 = some (p, d2, sq2))
     (hins : InsertsAs now' (mkLog lid p now ik ihash sv) d2 sqR)
-    (hsafe : logSafe d1 { d2 with logs := d2.logs ++ [mkLog lid p now ik ihash sv] } (mkLog lid p now ik ihash sv) = true) :
-    eval now' (importLog (mkLog lid p now ik ihash sv)) d1 sqR =
-      some ((), { d2 with logs := d2.logs ++ [mkLog lid p now ik ihash sv] }, sqR) ∧ Map.WF d2.volumes := by
+    (hsafe : logSafe d1 (mkLog lid p now ik ihash sv) = true) :
+    ∃ vR', eval now' (importLog (mkLog lid p now ik ihash sv)) (d1.withVol vR) sqR =
+      some ((), ({ d2 with logs := d2.logs ++ [mkLog lid p now ik ihash sv] } : Db).withVol vR', sqR) ∧
+      VolRel d2.volumes vR' := by
+  have simple : ∀ (_ : eval now' (importLog (mkLog lid p now ik ihash sv)) d1 sqR =
+        some ((), { d2 with logs := d2.logs ++ [mkLog lid p now ik ihash sv] }, sqR) ∧ d2.volumes = d1.volumes ∧
+        (importLog (mkLog lid p now ik ihash sv)).All Call.NoVol),
+      ∃ vR', eval now' (importLog (mkLog lid p now ik ihash sv)) (d1.withVol vR) sqR =
+        some ((), ({ d2 with logs := d2.logs ++ [mkLog lid p now ik ihash sv] } : Db).withVol vR', sqR) ∧
+        VolRel d2.volumes vR' := by
+    intro ⟨h1, h2, h3⟩
+    refine ⟨vR, ?_, h2 ▸ hv⟩
+    rw [eval_frame now' _ h3 d1 vR sqR, h1]
+    rfl
   cases kind with
   | createP c ps force =>
-    exact replay_create now now' strict sv c _ (postingsMachine_lockOnly ps force) d1 d2 sq1 sq2 sqR p lid ik ihash hw
-      hfound h hins hsafe
+    exact replay_create now now' strict sv c _ (postingsMachine_lockOnly ps force) d1 d2 sq1 sq2 sqR p lid ik ihash vR hv
+      hfound h hins
   | createS c obs =>
-    exact replay_create now now' strict sv c _ (scriptMachine_lockOnly obs n) d1 d2 sq1 sq2 sqR p lid ik ihash hw
-      hfound h hins hsafe
-  | revert id force aed m => exact replay_revert now now' strict n id force aed m _ d1 d2 sq1 sq2 sqR p lid ik ihash sv hw h hins hsafe
-  | saveTxMeta id m =>
-    have := replay_saveTxMeta now now' strict n id m _ d1 d2 sq1 sq2 sqR p lid ik ihash sv h hins
-    exact ⟨this.1, this.2 ▸ hw⟩
-  | saveAccMeta a m =>
-    have := replay_saveAccMeta now now' strict n a m d1 d2 sq1 sq2 sqR p lid ik ihash sv h hins hsafe
-    exact ⟨this.1, this.2 ▸ hw⟩
-  | delTxMeta id key =>
-    have := replay_delTxMeta now now' strict n id key _ d1 d2 sq1 sq2 sqR p lid ik ihash sv h hins
-    exact ⟨this.1, this.2 ▸ hw⟩
-  | delAccMeta a key =>
-    have := replay_delAccMeta now now' strict n a key _ d1 d2 sq1 sq2 sqR p lid ik ihash sv h hins hsafe
-    exact ⟨this.1, this.2 ▸ hw⟩
+    exact replay_create now now' strict sv c _ (scriptMachine_lockOnly obs n) d1 d2 sq1 sq2 sqR p lid ik ihash vR hv
+      hfound h hins
+  | revert id force aed m => exact replay_revert now now' strict n id force aed m _ d1 d2 sq1 sq2 sqR p lid ik ihash sv vR hv h hins
+  | saveTxMeta id m => exact simple (replay_saveTxMeta now now' strict n id m _ d1 d2 sq1 sq2 sqR p lid ik ihash sv h hins)
+  | saveAccMeta a m => exact simple (replay_saveAccMeta now now' strict n a m d1 d2 sq1 sq2 sqR p lid ik ihash sv h hins hsafe)
+  | delTxMeta id key => exact simple (replay_delTxMeta now now' strict n id key _ d1 d2 sq1 sq2 sqR p lid ik ihash sv h hins)
+  | delAccMeta a key => exact simple (replay_delAccMeta now now' strict n a key _ d1 d2 sq1 sq2 sqR p lid ik ihash sv h hins hsafe)
   | insertSchema v chart tpls bad =>
-    have := replay_insertSchema now now' strict n v chart tpls bad _ d1 d2 sq1 sq2 sqR p lid ik ihash sv h hins
-    exact ⟨this.1, this.2 ▸ hw⟩
+    exact simple (replay_insertSchema now now' strict n v chart tpls bad _ d1 d2 sq1 sq2 sqR p lid ik ihash sv h hins)
 
 theorem eval_schemaPhase_found (now : Time) (strict : Bool) (kind : OpKind) (sv : String) (d : Db) (sq : Seqs)
     (x : Option Schema × Db × Seqs) (h : eval now (schemaPhase strict kind sv) d sq = some x) (hsv : sv ≠ "") :
@@ -403,12 +525,14 @@ theorem eval_logPhase_insert (now : Time) (strict : Bool) (ik ihash sv : String)
     · rw [if_pos hb] at h; simp only [eval] at h; cases h
     · rw [if_neg hb] at h; exact key x h
 
-/-- A complete `runLog`, replayed by `importLog` of its log on the tables it started from. -/
+/-- A complete `runLog`, replayed by `importLog` of its log on the tables it started
+    from (volumes up to zero rows). -/
 theorem runLog_replay (now now' : Time) (hn : String) (f : Faults) (strict : Bool) (kind : OpKind)
-    (ik ihash sv : String) (n : Nat) (st0 st : RunSt) (log : Log) (sqR : Seqs)
-    (h : run now hn f (runLog strict kind ik ihash sv n) st0 = (.ok log, st)) (hw : Map.WF st0.db.volumes)
-    (hsafe : logSafe st0.db st.db log = true) :
-    eval now' (importLog log) st0.db sqR = some ((), st.db, sqR) ∧ Map.WF st.db.volumes := by
+    (ik ihash sv : String) (n : Nat) (st0 st : RunSt) (log : Log) (sqR : Seqs) (vR : PCV)
+    (h : run now hn f (runLog strict kind ik ihash sv n) st0 = (.ok log, st)) (hv : VolRel st0.db.volumes vR)
+    (hsafe : logSafe st0.db log = true) :
+    ∃ vR', eval now' (importLog log) (st0.db.withVol vR) sqR = some ((), st.db.withVol vR', sqR) ∧
+      VolRel st.db.volumes vR' := by
   have hev := run_ok_eval now hn f _ st0 st log h
   unfold runLog at hev
   obtain ⟨schema, d1, sq1, h1, hev⟩ := eval_bind_some now _ _ _ _ _ hev
@@ -421,12 +545,15 @@ theorem runLog_replay (now now' : Time) (hn : String) (f : Faults) (strict : Boo
   simp only at hil
   obtain ⟨hins, hlog, hdb⟩ := insertLog_replay now now' p ik ihash sv d2 st.db sq2 st.seq sqR log hil
   rw [hsch] at h2
-  rw [hdb, hlog] at hsafe ⊢
+  rw [hlog] at hsafe
   have hins' : InsertsAs now' (mkLog log.id p now ik ihash sv) d2 sqR := by
     unfold InsertsAs
     rw [← hlog, ← hdb]
     exact hins
-  have := replay_body now now' strict kind n sv st0.db d2 sq1 sq2 sqR p log.id ik ihash hw hfound h2 hins' hsafe
-  exact this
+  obtain ⟨vR', hev', hrel⟩ := replay_body now now' strict kind n sv st0.db d2 sq1 sq2 sqR p log.id ik ihash vR hv hfound h2
+    hins' hsafe
+  refine ⟨vR', ?_, ?_⟩
+  · rw [hdb, hlog]; exact hev'
+  · rw [hdb]; exact hrel
 
 end Ledger.Ctrl
